@@ -63,7 +63,7 @@ func (c15) Cases(tier string, race bool) int {
 var c15hostile = []byte("<>/&\"'[]{}\\:!?-= \x00\xff\x0c")
 
 var c15xmlgen = xt.GenCfg{Names: []string{"a", "b", "x-y"}, Prefixes: []string{"", "", "n"}, Texts: []string{"", "t", "&amp;", "<", "1", "a]]>b", "é"}, MaxKids: 2, MaxAttrs: 2, SeqMode: false}
-var c15seqgen = xt.GenCfg{Names: []string{"a", "b", "x-y"}, Prefixes: []string{"", "", "n"}, Texts: []string{"", "t", "&amp;", "1"}, MaxKids: 2, MaxAttrs: 2, SeqMode: true}
+var c15seqgen = xt.GenCfg{Names: []string{"a", "b", "x-y"}, Prefixes: []string{"", "n", "n"}, Texts: []string{"", "t", "&amp;", "1"}, MaxKids: 2, MaxAttrs: 2, SeqMode: true}
 
 // stdFirstDoc: verdict of the strict std tokenizer on the first document in b.
 // leading = kind of the first comment/directive/PI seen before the first start element ("" if none).
@@ -521,6 +521,18 @@ func c15args(c *core.Ctx) {
 		}
 	}}.Fresh()
 	root := g.Map(r, 1+r.Intn(4))
+	if r.Intn(2) == 0 {
+		// a list with more members than any initial result capacity, few of which satisfy a given sub-key
+		n := autoInt(r, 33, 300, 40) + r.Intn(8)
+		wide := make([]interface{}, n)
+		for i := range wide {
+			wide[i] = map[string]interface{}{"k": []string{"v", "w", "x"}[i%3], "a": float64(i)}
+			if i%5 == 0 {
+				wide[i] = "scalar member"
+			}
+		}
+		root[[]string{"wide", "a", "doc"}[r.Intn(3)]] = wide
+	}
 	m := mxj.Map(root)
 	typed := r.Intn(2) == 0
 	if typed {
@@ -553,6 +565,14 @@ func c15args(c *core.Ctx) {
 		call("ValueOrEmptyForPathString", func() error { m.ValueOrEmptyForPathString(p); return nil })
 		call("Exists", func() error { _, e := m.Exists(p, sk...); return e })
 		call("ValuesForKey", func() error { _, e := m.ValuesForKey(c15pathAtoms[r.Intn(len(c15pathAtoms))], sk...); return e })
+		call("ValuesForKey(*)", func() error {
+			_, e := m.ValuesForKey("*", []string{"k:v", "!k:v", "k:none", "a:1:num", "k:*"}[r.Intn(5)])
+			_, e2 := m.ValuesForPath([]string{"*", "wide", "*.*", "wide.*", "*.k"}[r.Intn(5)], []string{"k:v", "!k:w", "k:none"}[r.Intn(3)])
+			if e == nil {
+				e = e2
+			}
+			return e
+		})
 		call("ValueForKey", func() error { _, e := m.ValueForKey(keys[r.Intn(len(keys))], sk...); return e })
 		call("PathsForKey", func() error { m.PathsForKey(keys[r.Intn(len(keys))]); return nil })
 		call("PathForKeyShortest", func() error { m.PathForKeyShortest(keys[r.Intn(len(keys))]); return nil })
@@ -688,6 +708,9 @@ func (c15) Case(c *core.Ctx) {
 			mxj.XmlGoEmptyElemSyntax()
 		}
 		c.Count("non-default-options")
+	}
+	if c.Index%8 <= 1 && r.Intn(3) == 0 {
+		mxj.CoerceKeysToSnakeCase(true) // (prefixed, hyphenated names through both decoders)
 	}
 	switch c.Index % 8 {
 	case 0, 1:
